@@ -42,6 +42,10 @@ def run_case(cs):
     d = cs.dir()
     area = os.path.join(d, "area")
     root = os.path.join(area, world.root_name(rng, "root"))
+    if rng.random() < 0.04:
+        # the history folder's own name cannot be stored in XML: the manifest can be written, its chain entry cannot
+        root = os.path.join(area, "root" + rng.choice(world.UNSTORABLE) + "x")
+        cs.count("root_names_not_storable_in_xml")
     cwd = os.path.join(area, "cwd")
     dest = os.path.join(area, "dest")
     os.makedirs(cwd)
@@ -147,6 +151,8 @@ def run_case(cs):
                 continue
             h = rng.choice(hs)
             names = os.listdir(hist.asc_dir(root, h))
+            if not names:
+                continue
             n = rng.choice(names)
             cmd = "xsd-schema-check"
             if n.endswith(".xml"):
